@@ -436,6 +436,11 @@ func (o *freezeOracle) Leg(c *explore.Ctx, leg *world.Leg) {
 			}
 		}
 	}
+	// flag integrity: the flags are exactly what the system contract's accepted controls left
+	// (no other function, refunds included, sets or clears one)
+	if leg.Post != nil && leg.Pre != leg.Post {
+		o.flagIntegrity(c, leg)
+	}
 	if leg.Pre == leg.Post {
 		return
 	}
@@ -473,6 +478,43 @@ func (o *freezeOracle) Leg(c *explore.Ctx, leg *world.Leg) {
 	if leg.Func == vmcommon.BuiltInFunctionESDTNFTAddURI || leg.Func == vmcommon.BuiltInFunctionESDTNFTUpdateAttributes {
 		if len(in.Arguments) > 0 && spec.Paused(leg.Pre, leg.Shard, string(in.Arguments[0])) {
 			c.Report(p, "paused", fmt.Sprintf("%s:%s", leg.Func, sideOf(leg)), fmt.Sprintf("%s succeeded while %q is paused", leg.Func, in.Arguments[0]))
+		}
+	}
+}
+
+func (o *freezeOracle) flagIntegrity(c *explore.Ctx, leg *world.Leg) {
+	w := leg.Post
+	p := o.property
+	for sh, shard := range w.Shards {
+		for _, acc := range shard.Accts {
+			isSys := bytes.Equal(acc.Addr, vmcommon.SystemAccountAddress)
+			for k, raw := range acc.Storage {
+				if !strings.HasPrefix(k, spec.TokPrefix) {
+					continue
+				}
+				suffix := k[len(spec.TokPrefix):]
+				if isSys {
+					stored := len(raw) == 2 && raw[0]&1 != 0
+					if stored != w.GhostFlag("paused", []byte{byte(sh)}, suffix) {
+						c.Report(p, "flag", leg.Func+":"+sideOf(leg)+":paused-flag", fmt.Sprintf("after %s the paused flag of %q on shard %d is %v, the system contract's accepted controls left it %v", leg.Func, suffix, sh, stored, !stored))
+					}
+					continue
+				}
+				stored := spec.Frozen(acc, suffix)
+				if stored != w.GhostFlag("frozen", acc.Addr, suffix) {
+					c.Report(p, "flag", leg.Func+":"+sideOf(leg)+":frozen-flag", fmt.Sprintf("after %s the frozen flag in %s's entry %x is %v, the system contract's accepted controls left it %v", leg.Func, uni.Name(acc.Addr), suffix, stored, !stored))
+				}
+			}
+		}
+	}
+	for _, f := range w.GhostFlags("frozen") {
+		if !spec.Frozen(w.Get([]byte(f[0])), f[1]) {
+			c.Report(p, "flag", leg.Func+":"+sideOf(leg)+":frozen-flag", fmt.Sprintf("after %s %s is no longer frozen for %q although the system contract froze it and never released it", leg.Func, uni.Name([]byte(f[0])), f[1]))
+		}
+	}
+	for _, f := range w.GhostFlags("paused") {
+		if !spec.Paused(w, uint32(f[0][0]), f[1]) {
+			c.Report(p, "flag", leg.Func+":"+sideOf(leg)+":paused-flag", fmt.Sprintf("after %s %q is no longer paused on shard %d although the system contract paused it and never released it", leg.Func, f[1], f[0][0]))
 		}
 	}
 }
